@@ -515,6 +515,8 @@ class MethodsMixin(object):
         if nm in ("list", "dict"):
             if isinstance(v, VRef):
                 c = st.heap[v.oid]
+                if isinstance(c, HObj) and c.cls == "Tree":
+                    return z3.Bool(fresh_name("tree_isdict"))   # abstract nested-dict node: leaf or dict unknown
                 return z3.BoolVal(isinstance(c, (HList, HCList)) if nm == "list" else isinstance(c, HDict))
             return z3.BoolVal(False)
         return self._nope(nm, node)
